@@ -21,6 +21,7 @@ func init() {
 	reg("C15.errtype", "ETYPE", "lookupd Exec returns only nil/*FatalClientErr", 2, c15errtype)
 	reg("C15.dispatch", "SHAPE", "lookupd command table; unknown => fatal E_INVALID; fatal errors close the connection; bad magic => E_BAD_PROTOCOL", 7, c15dispatch)
 	reg("C15.names", "GUARD+ORIG", "registration keys from validated names; IDENTIFY first and once; peer info complete before it is stored", 8, c15names)
+	reg("C15.identity", "ORIG", "a peer's registration id is the address of its own connection, never client-supplied data", 3, c15identity)
 	reg("C15.params", "GUARD", "constant indices / slices of the parameter list are guarded by its length", 3, c15params)
 	reg("C15.http", "ETYPE+GUARD", "lookupd HTTP: routes, handler error types, status classes, /nodes index bounds", 30, c15http)
 }
@@ -335,6 +336,7 @@ func c15params(c *an.Ctx) {
 	if gtc == nil || exec == nil {
 		return
 	}
+	nonEmpty, whyNot := paramsNonEmpty(c, exec)
 	for _, fn := range []*ssa.Function{gtc, exec} {
 		params := fn.Params[len(fn.Params)-1]
 		an.Instrs(fn, func(in ssa.Instruction) {
@@ -348,8 +350,8 @@ func c15params(c *an.Ctx) {
 					return
 				}
 				construct := sprintf("params[%d] in range", k)
-				if fn == exec && k == 0 {
-					c.OK(fn, construct, x.Pos(), "strings.Split returns >= 1 element (contract)")
+				if fn == exec && k == 0 && nonEmpty {
+					c.OK(fn, construct, x.Pos(), "every caller passes strings.Split(_, non-empty sep), which returns >= 1 element")
 					return
 				}
 				good := false
@@ -371,7 +373,11 @@ func c15params(c *an.Ctx) {
 						good = good || (kk == 0 && k == 0)
 					}
 				}
-				c.Check(good, fn, construct, x.Pos(), "", sprintf("params[%d] is read without a dominating length test: a short command line panics the connection goroutine (process-fatal)", k))
+				why := ""
+				if fn == exec && k == 0 {
+					why = " (" + whyNot + ")"
+				}
+				c.Check(good, fn, construct, x.Pos(), "", sprintf("params[%d] is read without a dominating length test%s: a short or blank command line panics the connection goroutine (process-fatal)", k, why))
 			case *ssa.Slice:
 				if an.Strip(x.X) != ssa.Value(params) || x.Low == nil {
 					return
@@ -381,7 +387,7 @@ func c15params(c *an.Ctx) {
 					return
 				}
 				// params[1:] needs len >= 1 – guaranteed by the Split contract in Exec
-				c.Check(fn == exec && k == 1, fn, sprintf("params[%d:] in range", k), x.Pos(), "", sprintf("params[%d:] is sliced without a length guarantee", k))
+				c.Check(fn == exec && k == 1 && (nonEmpty || lenAtLeast(x.Block(), params, 1)), fn, sprintf("params[%d:] in range", k), x.Pos(), "", sprintf("params[%d:] is sliced without a length guarantee %s", k, whyNot))
 			}
 		})
 	}
@@ -462,4 +468,83 @@ func c15http(c *an.Ctx) {
 			c.Check(good, dn, "index into a slice made with the ranged slice's length", ia.Pos(), "", "/nodes writes into a slice with an index that is not the range index of a slice of the same length: index out of range => 500")
 		})
 	}
+}
+
+// lenAtLeast: a dominating comparison implies len(v) >= n at block b.
+func lenAtLeast(b *ssa.BasicBlock, v ssa.Value, n int64) bool {
+	for _, cmp := range an.CmpsAt(b) {
+		oc, ok := cmp.Oriented(func(x ssa.Value) bool { a := lenArgOf(x); return a != nil && an.Strip(a) == v })
+		if !ok {
+			continue
+		}
+		kk, isC := an.ConstInt(oc.Y)
+		if !isC {
+			continue
+		}
+		switch oc.Op {
+		case token.GEQ:
+			if kk >= n {
+				return true
+			}
+		case token.GTR:
+			if kk >= n-1 {
+				return true
+			}
+		case token.NEQ:
+			if kk == 0 && n == 1 {
+				return true
+			}
+		case token.EQL:
+			if kk >= n {
+				return true
+			}
+		}
+	}
+	return false
+}
+
+// c15identity: PeerInfo.id keys every producer entry; it must come from the connection (RemoteAddr().String())
+// and from nothing a client can put into the IDENTIFY body.
+func c15identity(c *an.Ctx) {
+	idF := c.P.Field("nsqlookupd", "PeerInfo", "id")
+	if idF == nil {
+		c.Anchor("nsqlookupd.PeerInfo.id")
+		return
+	}
+	c.Check(!idF.Exported(), nil, "PeerInfo.id is not settable by encoding/json", idF.Pos(), "", "PeerInfo.id is exported: the IDENTIFY body can set the registration id, so a client can act on another connection's registrations")
+	fromConn := func(v ssa.Value) bool {
+		return an.OriginsAll(v, func(o ssa.Value) bool {
+			call, ok := o.(*ssa.Call)
+			if !ok || !call.Call.IsInvoke() || call.Call.Method.Name() != "String" {
+				return false
+			}
+			return an.OriginsAll(call.Call.Value, func(a ssa.Value) bool {
+				ac, ok := a.(*ssa.Call)
+				if !ok {
+					return false
+				}
+				if ac.Call.IsInvoke() {
+					return ac.Call.Method.Name() == "RemoteAddr"
+				}
+				f := an.StaticCallee(ac)
+				return f != nil && f.Name() == "RemoteAddr"
+			})
+		})
+	}
+	n := 0
+	for _, fn := range c.P.PkgFuncs("nsqlookupd") {
+		an.Instrs(fn, func(in ssa.Instruction) {
+			st, ok := in.(*ssa.Store)
+			if !ok {
+				return
+			}
+			fa, ok := st.Addr.(*ssa.FieldAddr)
+			if !ok || an.FieldOf(fa) != idF {
+				return
+			}
+			n++
+			c.Check(fromConn(st.Val), fn, "PeerInfo.id <- conn.RemoteAddr().String()", st.Pos(), "", "PeerInfo.id is assigned something other than the connection's RemoteAddr().String() (e.g. a field decoded from the IDENTIFY body): a client can claim another producer's id and UNREGISTER or replace its registrations")
+		})
+	}
+	c.Check(n >= 1, nil, "PeerInfo.id assigned from the connection", idF.Pos(), "", "no assignment of PeerInfo.id found")
 }
